@@ -72,7 +72,16 @@ def judge_resume_eq(world, out, prop="C12"):
         want = begins[src]["digest"]
         got = rest[0]["digest"]
         info["resumes_checked"] += 1
-        diff = sorted(k for k in want if k != "flow_weights" and want.get(k) != got.get(k))
+        # the flow pool's 'populated' flag is reset by construction and restored by check_resume at the start of
+        # the loop: judged separately from the note taken there
+        diff = sorted(k for k in want if k not in ("flow_weights", "flow_pool_populated")
+                      and want.get(k) != got.get(k))
+        pool = _by(recs, "restored_pool", i)
+        if pool and "flow_pool_populated" in want:
+            from .digest import h as _h
+
+            if _h(bool(pool[0]["populated"] and pool[0]["n_indices"])) != want["flow_pool_populated"]:
+                diff.append("flow_pool_populated")
         if diff:
             viol.append({"oracle": f"{prop}-RESUME-EQ",
                          "key": f"{prop}-RESUME-EQ|{world['scenario']['sampler']}|{','.join(diff[:5])}",
